@@ -182,7 +182,8 @@ def expand(sid: str | Sid, do_extrapolate: bool = False) -> List[Sid]:
             debug('.. Type "{}" is not a leaf, and do_extrapolate is False, skipped.'.format(key))
             continue
 
-    return sorted(list(set(result)))
+    # (Sids sharing a string - same search, different types - are ordered by their uri, not by set iteration order)
+    return sorted(set(result), key=lambda s: (str(s), s.uri))
 
 
 @cache
@@ -222,7 +223,7 @@ def simple_typing(sid: str | Sid) -> List[Sid]:
         debug("appending: {}".format(new_sid.uri))
         result.append(new_sid)
 
-    return list(set(result)) or [Sid(sid)]
+    return sorted(set(result), key=lambda s: (str(s), s.uri)) or [Sid(sid)]
 
 
 if __name__ == "__main__":
